@@ -36,14 +36,14 @@ CHECKS.update({
  "C16": dict(tech="exhaustive round-trip enumeration (all 20480 moves, all 131072 mate scores) plus generated raw scores",
              text="Exploration, exhaustive for moves, 'no move' and mate scores; raw scores at the 32-bit extremes, around zero and generated. Round trip through StableChessMove and EvaluatedMove compared structurally.",
              ref="4 C16", note=LEVEL_NOTE_ENUM),
- "C17": dict(tech="complete walk of the embedded book trie in lockstep with the reference model (differential), release and checked profiles",
-             text="Exploration, exhaustive: every one of the ~29k edges of the embedded book is checked for legality against the reference model and acceptance by move_new from the standard position; every node's iterator terminates; the checked-profile run traps any out-of-table index.",
+ "C17": dict(tech="complete walk of the embedded book trie in lockstep with the reference model (differential), iterator-method model per node, release and checked profiles; process-level scenarios against the chess-cli binary",
+             text="Exploration, exhaustive: every one of the ~29k edges of the embedded book is checked for legality against the reference model and acceptance by move_new from the standard position; every node's iterator terminates and all its provided methods (count, last, nth, skip, step_by, fold, size_hint) agree with repeated next() in every consumed-prefix state; the checked-profile run traps any out-of-table index. A process-level stage starts the real chess-cli binary on generated position arguments and without one: a panic before its first search (book lines replayed from anything but the standard start, or a refused book move) is a violation.",
              ref="4 C17", note=LEVEL_NOTE_REF),
  "C18": dict(tech="model-based testing against a [bool;64] set model: exhaustive structured boards + generated boards + proptest iterator op lists",
-             text="Exploration: every listed operation is compared with a plain set model on all empty/full/single/pair/file/rank boards and complements, on generated boards, collection from repeated squares/boards and through zero-lower-bound adaptors, and iterator op lists (next, nth incl. n >= 64, skip, step_by, clone, count, last) are checked against a Vec model with the remainder compared after every op.",
+             text="Exploration: every listed operation is compared with a plain set model on all empty/full/single/pair/file/rank boards and complements, on generated boards, collection from repeated squares/boards and through zero-lower-bound adaptors, and iterator op lists (next, nth incl. n >= 64, skip, step_by, clone, count, last) are checked against a Vec model with the remainder compared after every op; on small, extreme and generated sparse boards every provided Iterator method and std adaptor is compared with a slice iterator in every consumed-prefix state.",
              ref="4 C18", note=LEVEL_NOTE_ENUM),
  "C19": dict(tech="exhaustive enumeration of byte strings over finite alphabets against an independent accept predicate; round trips; iterator op lists vs slice iterators",
-             text="Exploration, exhaustive on 64 squares, 256 one-byte, 65536 two-byte strings, ALL 2^32 four-byte move strings, five-byte strings over the move alphabet plus per-position sweeps over all 256 byte values, all 4096 moves in every case/separator spelling, and all short op lists on the five enum iterators; generated byte strings of other lengths.",
+             text="Exploration, exhaustive on 64 squares, 256 one-byte, 65536 two-byte strings, ALL 2^32 four-byte move strings, five-byte strings over the move alphabet plus per-position sweeps over all 256 byte values, all 4096 moves in every case/separator spelling, all short op lists on the five enum iterators, and every provided Iterator/DoubleEndedIterator method (count, last, nth, nth_back, fold, try_fold, rfold, min, max, position, find, skip, take, step_by, rev, chain, zip, ...) in every (front, back) consumption state of the enum, square and line iterators against slice iterators; generated byte strings of other lengths.",
              ref="4 C19", note=LEVEL_NOTE_ENUM),
  "C20": dict(tech="schedule enumeration with a harness-owned interleaving of two OS threads against a state model (all schedules of length <= 4/5, proptest beyond), plus a schedule-independent invariant under real parallelism",
              text="Exploration, exhaustive over all operation-granularity interleavings of length <= 4 (quick) / 5 (thorough) of the eight operations on two threads; after every step both threads' is_enabled() must be explained by the model (global flag + admissible override states). Longer schedules are generated; a free-running mode checks the override invariant under real parallelism.",
@@ -55,7 +55,7 @@ CHECKS.update({
              text="Exploration: seven generators (raw bytes, token soup, field-structured soup, canonical FENs with 1-4 edits, well-formed but semantically wrong FENs by construction, canonical FENs of reachable positions, builder scripts) drive parse_fen / str::parse / BoardBuilder under catch_unwind; every accepted board is read back and must satisfy the playability predicate clause by clause; reachable positions must be accepted and equal the lockstep board. Acceptance rate per generator is in evidence.",
              ref="4 C06", note=LEVEL_NOTE_REF),
  "C10": dict(tech="model-based (stateful) property testing: generated iterator-operation sequences against a set model with admissible-fork handling of two recorded findings",
-             text="Exploration: generated op lists (next, len/is_empty/size_hint, set_mask, remove, remove_move, clone, count, final cover under complementary masks) on positions reached by generated playouts, legals() and legals_masked() starts, compared after every op with the set model R/M built from the reference legal moves. Divergences are violations unless the history matches one of the two open findings recorded in known_findings.json (evaluated on the history; 60% of cases avoid them by construction so that the search continues behind them).",
+             text="Exploration: generated op lists (next, len/is_empty/size_hint, set_mask, remove, remove_move, clone, count, final cover under complementary masks) on positions reached by generated playouts, legals() and legals_masked() starts, and king_legals(side to move) starts, compared after every op with the set model R/M built from the reference legal moves. Divergences are violations unless the history matches one of the two open findings recorded in known_findings.json (evaluated on the history; 60% of cases avoid them by construction so that the search continues behind them).",
              ref="4 C10", note=LEVEL_NOTE_REF + " Known findings D5i/D5ii (open) are replayed strictly on every run and reported as KNOWN-FINDING lines."),
 })
 
@@ -66,7 +66,7 @@ CHECKS.update({
              text="Exploration: generated scripts over every operation family the property names (construct via parser/builder incl. pawns on back ranks and clocks up to u16::MAX, generate/mask/iterate/remove, apply, hash, print in every format, perft, search with counting timeouts, repetition table, book descent, bitboard iterators with n up to usize::MAX) plus directed boundary families (18-entry capacity positions, 218-move position, 16-bit clocks, >255 repetitions, 65536+ cheap deepening passes) run in a profile where unchecked fast paths, debug assertions and arithmetic overflow trap. Any panic, abort or signal is a violation.",
              ref="4 C07", note="Trusted base: rustc's debug-assertion / overflow-check instrumentation and std's unsafe-precondition checks; proptest. UB that neither traps in the checked profile nor crashes is not observable (stated in DESIGN.md section 7)."),
  "C11": dict(tech="fault/schedule enumeration over the timeout-expiry instant k with a counting Timeout (every k up to the second pass boundary, boundaries +-3, generated k), legality oracle from the reference model",
-             text="Exploration: for each generated position one instrumented run yields the poll counts at which deepening passes start; the search is then re-run with the limit expiring at poll k for every k up to min(s_2, 300/800), around every boundary and at generated values. For each k: returns within a poll bound after expiry, no panic (also with INFO/DEBUG logging enabled for small k and around boundaries), move None or reference-legal, None iff no legal move, Some once the first pass finished or whenever the search returns by itself, Some monotone in k. If the engine's pass log line is missing the boundaries are recovered by bisection over public results.",
+             text="Exploration: for each generated position one instrumented run yields the poll counts at which deepening passes start; the search is then re-run with the limit expiring at poll k for every k up to min(s_2, 300/800), around every boundary and at generated values. Release and checked (overflow-trapping) profiles. For each k: returns within a poll bound after expiry, no panic (also with INFO/DEBUG logging enabled for small k and around boundaries), move None or reference-legal, None iff no legal move, Some once the first pass finished or whenever the search returns by itself, Some monotone in k. If the engine's pass log line is missing the boundaries are recovered by bisection over public results.",
              ref="4 C11", note=LEVEL_NOTE_ENGINE),
  "C12": dict(tech="property-based testing with constructed mating nets and harvested positions; oracle = reference enumeration of mating moves",
              text="Exploration: positions with and without a mate in one (mating-net constructors, sparse placements, playouts; half-move clock at 96..100; mated position pre-filled twice in the repetition table) are searched with the limit at the first/second pass boundary and without limit; a mating move with the mover's MateIn(1) score must come back when one exists, the score must never appear otherwise, and it must always come with a move that mates. Descendants with exactly one legal move (preferring those where it mates) and tactical back-rank positions are harvested/constructed because random generation does not reach them.",
@@ -109,7 +109,7 @@ def main():
     na = [{"property_id": i, "reason": NOT_YET.get(i, "check not built yet in this round (design exists in DESIGN.md section 4); nothing is claimed until its harness exists and has been validated")} for i in ids if i not in CHECKS]
     m = {
         "version": 1,
-        "setup_cmd": "cd /verif/harness && CARGO_NET_OFFLINE=true cargo build --release -p vcheck && CARGO_NET_OFFLINE=true cargo build --profile checked -p vcheck && CARGO_NET_OFFLINE=true cargo build --release -p chess-bot",
+        "setup_cmd": "cd /verif/harness && CARGO_NET_OFFLINE=true cargo build --release -p vcheck && CARGO_NET_OFFLINE=true cargo build --profile checked -p vcheck && CARGO_NET_OFFLINE=true cargo build --release -p chess-bot && CARGO_NET_OFFLINE=true cargo build --release --manifest-path /repo/Cargo.toml -p chess-cli",
         "hooks": {
             "guard": "rustyyato_chess_verif",
             "enable": "no hooks are needed: every observation point is public API; checks build /repo's crates as path dependencies of /verif/harness (RUSTFLAGS would carry --cfg rustyyato_chess_verif if a hook is ever added)",
